@@ -522,6 +522,7 @@ func (r *Router) watchAllHandlersStopped(ctx context.Context) {
 				// let's avoid goroutine leak
 				return
 			case <-ctx.Done():
+				verifhook.At("router.life.watch.ctx_done")
 				// the Run context was cancelled before any handler was added:
 				// there is nothing to wait for, close the router so that Run returns
 			}
